@@ -655,7 +655,12 @@ pub fn c07(id: &str, f: &Forest, r: &[(CompressionType, Enc)], out: &mut Vec<Str
                             } else {
                                 "other"
                             };
-                            out.push(format!("{id} C07 resave-differs-{suffix} comp={c:?}: save(load(save d)) has {} bytes, save d has {} bytes; first differing chunk (uncompressed): {wher}", b2.len(), b.len()));
+                            // a planted type mismatch (a value whose type is not the property's declared type: option `hostile`) is
+                            // coerced by the first save, like C01 the comparison with the first file does not apply; the fixed point
+                            // after it (below) does
+                            if !(suffix == "other" && f.opt("hostile").is_some()) {
+                                out.push(format!("{id} C07 resave-differs-{suffix} comp={c:?}: save(load(save d)) has {} bytes, save d has {} bytes; first differing chunk (uncompressed): {wher}", b2.len(), b.len()));
+                            }
                         }
                         if let Dec::Dom(d2) = decode(b2) {
                             let e3 = encode(&d2, d2.root().children(), *c);
